@@ -110,7 +110,7 @@ func decideAtoms(know func(a Atom) (known, truth bool)) func(ssa.Value) int {
 			return 1
 		}
 		// try swapped operands
-		b := Atom{swapOp(a.Op), a.Y, a.X}
+		b := Atom{Op: swapOp(a.Op), X: a.Y, Y: a.X, Neg: a.Neg}
 		if k, t := know(b); k {
 			if t {
 				return 0
